@@ -17,8 +17,11 @@ class Chunk:
 
 def filler(rng, ch, allow_multiline=True):
     for _ in range(rng.range(0, 3)):
-        k = rng.below(7)
-        if k == 0:
+        k = rng.below(9)
+        if k >= 7:
+            # an interpolated string: its expression is parsed by a nested parser run, which must hand file name and position back
+            ch.add("pr(\"v ${%d + %d} w\")%s" % (rng.below(9), rng.below(9), rng.choice(["", "  // ${x}", "; pr(\"${%d}\")" % rng.below(9)])))
+        elif k == 0:
             ch.add("")
         elif k == 1:
             ch.add("// a comment with f1(1, 2, 3) and nosuch in it")
